@@ -119,7 +119,7 @@ def run(ctx):
                     ctx.violation("substitution returned a schema whose generated value it rejects", rp)
                     break
         # idempotence for plain values
-        if plain:
+        if plain or not placeholder:   # every value without a `...` placeholder, not only plain ones
             idem_checked += 1
             try:
                 again = substitute(c.result, v)
